@@ -67,6 +67,23 @@ impl Extra for B64 {
         check_elem::<B64>(&x.exp7(), fp.pow(mx, 7), "exp7", obs)?;
         ensure!((x.inner() as u128) < fp.p, "inner>=p", "inner() = {} is not below the modulus", x.inner());
         ensure!(B64::new(mx as u64) == x, "new", "new(as_int) != element");
+        // TryFrom<usize> (f64 only) accepts exactly the integers below p
+        for cand in [mx as u64, fp.p as u64 - 1, fp.p as u64, fp.p as u64 + 1, u64::MAX, small as u64, (fp.p as u64).wrapping_add(small as u64)] {
+            let r = B64::try_from(cand as usize);
+            ensure!(r.is_ok() == ((cand as u128) < fp.p), "try_from_usize/accepts", "f64: TryFrom<usize>({cand}) is_ok = {}", r.is_ok());
+            if let Ok(v) = r {
+                check_elem::<B64>(&v, cand as u128, "try_from_usize", obs)?;
+            }
+        }
+        // conversions out of the field: exact for values that fit, refused otherwise
+        ensure!(u64::from(x) as u128 == mx, "into_u64", "u64::from(element) != as_int");
+        ensure!(u128::from(x) == mx, "into_u128", "u128::from(element) != as_int");
+        ensure!(u32::try_from(x).ok().map(|v| v as u128) == Some(mx).filter(|m| *m <= u32::MAX as u128), "try_into_u32", "u32::try_from(element) for {mx}");
+        ensure!(u16::try_from(x).ok().map(|v| v as u128) == Some(mx).filter(|m| *m <= u16::MAX as u128), "try_into_u16", "u16::try_from(element) for {mx}");
+        ensure!(u8::try_from(x).ok().map(|v| v as u128) == Some(mx).filter(|m| *m <= u8::MAX as u128), "try_into_u8", "u8::try_from(element) for {mx}");
+        ensure!(bool::try_from(x).ok().map(|v| v as u128) == Some(mx).filter(|m| *m <= 1), "try_into_bool", "bool::try_from(element) for {mx}");
+        let sm = B64::from(small as u8);
+        ensure!(u8::try_from(sm).ok() == Some(small as u8) && u16::try_from(B64::from(small as u16)).ok() == Some(small as u16) && u32::try_from(B64::from(small)).ok() == Some(small), "try_into_small/roundtrip", "small integers do not round-trip through the field");
         // new() reduces silently
         let big = (mx as u64).wrapping_add(0xFFFFFFFF00000001);
         if (big as u128) >= fp.p {
@@ -266,6 +283,19 @@ impl<B: Extra> SubCheck for Ops<B> {
         let want = fp.pow(mx, e);
         check_elem(&x.exp(B::pi(e)), want, "exp", obs)?;
         check_elem(&x.exp_vartime(B::pi(e)), want, "exp_vartime", obs)?;
+        // exponents that are multiples of the group order (and their neighbours), as far as the exponent type
+        // reaches, for the operand and for zero: a reduction of the exponent modulo p - 1 is exact for every base but 0
+        let limit: u128 = if B::pi_bits() == 64 { u64::MAX as u128 } else { u128::MAX };
+        for k in 1..=4u128 {
+            let Some(ek) = (fp.p - 1).checked_mul(k).filter(|v| *v <= limit) else { break };
+            for e in [ek - 1, ek, ek.saturating_add(1).min(limit)] {
+                check_elem(&x.exp(B::pi(e)), fp.pow(mx, e), "exp-multiple-of-order", obs)?;
+                check_elem(&x.exp_vartime(B::pi(e)), fp.pow(mx, e), "exp_vartime-multiple-of-order", obs)?;
+                check_elem(&B::ZERO.exp(B::pi(e)), 0, "exp-zero-base", obs)?;
+                check_elem(&B::ZERO.exp_vartime(B::pi(e)), 0, "exp_vartime-zero-base", obs)?;
+            }
+        }
+        check_elem(&B::ZERO.exp(B::pi(0)), 1, "exp-zero-base-zero-exponent", obs)?;
         // equality is equality of residues
         ensure!((x == y) == (mx == my), "eq/operands", "{}: (a == b) is {} but residues are {mx} and {my}", B::NAME, x == y);
         // conversions from small integers
